@@ -18,6 +18,15 @@ From BB Require Import BN Brute SpaceFacts TrapFacts PercolateFacts AttractorFac
   Strict PetriNet Control Meta FilterFacts PetriNetFacts TrappistFacts DiagramStruct DiagramSem1 DiagramCache
   DiagramDepth DiagramComplete Termination ControlFacts MetaFacts Candidates StrictFacts MinExpandFacts CandidatesFacts SymbolicTest SymbolicTestFacts Signed ReductionFacts ControlFacts2 Main Blocks BlocksFacts ObsFacts OwnerFacts CandidatesTerm
   PartialOwner BlockMath BlockComplete ASeeds ASeedsFacts LogChecks SkipRule SkipRuleFacts Names NamesFacts Perm PermFacts SCC SCCFacts SCCStruct ControlFacts3 SCCTerm FilterSym Main2 StrategyFacts ControlFacts4 SkipRuleFacts2 SCCComplete SCCAttr BlockComplete2 ControlFacts5 Iso SkipSem ControlFacts6.
+From BB Require Import Names NamesFacts PySrcNames PySrcNamesFacts.
+
+(* translator tie: the function GENERATED from the current text of petri_net_translation.sanitize_network_names (PySrcNames.v: skeleton checked statement by statement, validity test and substitution read from the regular expressions) returns what the model's Names.sanitize returns (to which sanitize_total / _valid / _nodup / _fixes_valid below apply) *)
+Theorem C17_source_sanitize_network_names : forall (fuel : nat) (names : list name), S (length names) <= fuel -> exists out : list name, sanitize names = Some out /\ py_sanitize_network_names fuel names false = NRet out.
+Proof. exact py_sanitize_spec. Qed.
+
+(* with check_only=True it raises exactly when some name is invalid and otherwise returns the names unchanged *)
+Theorem C17_source_sanitize_check_only : forall (fuel : nat) (names : list name), py_sanitize_network_names fuel names true = (if check_only_ok names then NRet names else NRaise).
+Proof. exact py_sanitize_check_only_spec. Qed.
 
 Theorem C17_equiv_trap_space : forall (N M : net) (S : space), net_equiv N M -> trap_space N S <-> trap_space M S.
 Proof. exact equiv_trap_space. Qed.
@@ -132,6 +141,8 @@ Proof. split; [|split; reflexivity]. unfold is_perm. simpl. apply (Permutation_c
 Example C17_example_sanitize : sanitize [[97; 10]; [97; 123]; [97; 95]]%N = Some [[95; 97; 95]; [95; 95; 97; 95]; [97; 95]]%N.
 Proof. vm_compute. reflexivity. Qed.
 
+Print Assumptions C17_source_sanitize_network_names.
+Print Assumptions C17_source_sanitize_check_only.
 Print Assumptions C17_equiv_trap_space.
 Print Assumptions C17_equiv_percolate.
 Print Assumptions C17_equiv_max_traps.
